@@ -128,9 +128,9 @@ std::vector<ShamirShare> Shamir::split(const std::array<std::uint8_t, 32>& secre
     std::vector<ShamirShare> shares;
     shares.reserve(share_count);
 
-    for (std::uint8_t share_index = 1; share_index <= share_count; ++share_index) {
+    for (unsigned share_index = 1; share_index <= share_count; ++share_index) {
         ShamirShare share{};
-        share.index = share_index;
+        share.index = static_cast<std::uint8_t>(share_index);
         shares.push_back(share);
     }
 
@@ -153,6 +153,13 @@ std::array<std::uint8_t, 32> Shamir::combine(const std::vector<ShamirShare>& sha
                                              std::uint8_t threshold) {
     if (shares.size() < threshold) {
         throw std::invalid_argument("insufficient shares to reconstruct secret");
+    }
+    std::array<bool, 256> seen_index{};
+    for (const auto& share : shares) {
+        if (seen_index[share.index]) {
+            throw std::invalid_argument("duplicate share index");
+        }
+        seen_index[share.index] = true;
     }
 
     static const auto exp_table = build_exp_table();
